@@ -18,33 +18,42 @@ sQ == <<18, 2, 19>>  \* a"b
 sBS == <<18, 17, 19>> \* a\b
 sNeg == <<3, 6>>     \* -1
 
-NoTags == [k |-> Nil, j |-> Nil]
+NoTags == [k |-> Nil, j |-> Nil, q |-> Nil]
+\* (tag values of type bool / datetime live under key q only: how such values compare under a *string* literal is not documented)
 Row(s, n, m, f, b, t, roles, boss, peers, tags) ==
   [s |-> s, n |-> n, m |-> m, f |-> f, b |-> b, t |-> t, roles |-> roles, boss |-> boss, peers |-> peers, tags |-> tags]
 
 \* D1: nulls in every field, ties, case variants, numeric strings, self reference, empty and singleton sets
 D1 == [ name |-> "D1",
         names |-> [r1 |-> sA, r2 |-> <<18, 18>>, r3 |-> sAB, r4 |-> sB, r5 |-> sUA],
-        row |-> [ r1 |-> Row(S(sA), N(1), N(1), F2(3), B(TRUE), D(1), {sA, sAB}, "", {"r2", "r3"}, [k |-> S(sA), j |-> N(1)]),
+        row |-> [ r1 |-> Row(S(sA), N(1), N(1), F2(3), B(TRUE), D(1), {sA, sAB}, "", {"r2", "r3"}, [k |-> S(sA), j |-> N(1), q |-> B(TRUE)]),
                   r2 |-> Row(Nil, Nil, Nil, Nil, Nil, Nil, {}, "r1", {}, NoTags),
-                  r3 |-> Row(S(sE), N(0), N(0), F2(0), B(FALSE), D(0), {sB}, "r1", {"r3"}, [k |-> Nil, j |-> S(s1)]),
-                  r4 |-> Row(S(sUAB), N(-1), N(-1), F2(-1), B(TRUE), D(2), {sB, sUA}, "r4", {"r1", "r4"}, [k |-> N(2), j |-> B(TRUE)]),
-                  r5 |-> Row(S(s10), N(10), N(10), F2(4), B(FALSE), D(1), {sA}, "r2", {"r2"}, [k |-> F2(3), j |-> D(1)]) ] ]
+                  r3 |-> Row(S(sE), N(0), N(0), F2(0), B(FALSE), D(0), {sB}, "r1", {"r3"}, [k |-> Nil, j |-> S(s1), q |-> D(1)]),
+                  r4 |-> Row(S(sUAB), N(-1), N(-1), F2(-1), B(TRUE), D(2), {sB, sUA}, "r4", {"r1", "r4"}, [k |-> N(2), j |-> N(0), q |-> B(FALSE)]),
+                  r5 |-> Row(S(s10), N(10), N(10), F2(4), B(FALSE), D(1), {sA}, "r2", {"r2"}, [k |-> F2(3), j |-> S(sA), q |-> D(2)]) ] ]
 
 \* D2: everything equal / everything distinct mixes for sorting and paging; strings with quote and backslash
 D2 == [ name |-> "D2",
         names |-> [r1 |-> sB, r2 |-> sA, r3 |-> sUA, r4 |-> sAB, r5 |-> <<19, 18>>, r6 |-> s1],
-        row |-> [ r1 |-> Row(S(sQ), N(2), N(2), F2(2), B(TRUE), D(3), {sQ}, "r2", {"r2", "r3", "r4"}, [k |-> S(sQ), j |-> Nil]),
-                  r2 |-> Row(S(sBS), N(2), N(1), F2(3), B(TRUE), D(3), {sA, sB, sAB}, "r3", {"r1"}, [k |-> S(sBS), j |-> N(2)]),
-                  r3 |-> Row(S(sA), Nil, N(1), F2(3), Nil, D(0), {sA}, "", {"r5", "r6"}, [k |-> B(FALSE), j |-> N(0)]),
+        row |-> [ r1 |-> Row(S(sQ), N(2), N(2), F2(2), B(TRUE), D(3), {sQ}, "r2", {"r2", "r3", "r4"}, [k |-> S(sQ), j |-> Nil, q |-> B(TRUE)]),
+                  r2 |-> Row(S(sBS), N(2), N(1), F2(3), B(TRUE), D(3), {sA, sB, sAB}, "r3", {"r1"}, [k |-> S(sBS), j |-> N(2), q |-> Nil]),
+                  r3 |-> Row(S(sA), Nil, N(1), F2(3), Nil, D(0), {sA}, "", {"r5", "r6"}, [k |-> S(sUA), j |-> N(0), q |-> B(FALSE)]),
                   r4 |-> Row(S(sA), N(1), Nil, Nil, B(FALSE), Nil, {}, "r2", {}, NoTags),
-                  r5 |-> Row(Nil, N(1), N(0), F2(-2), B(FALSE), D(1), {sAspB}, "r1", {"r5"}, [k |-> N(1), j |-> N(1)]),
-                  r6 |-> Row(S(sAspB), N(0), N(0), F2(1), Nil, D(1), {sB}, "r6", {"r1", "r2"}, [k |-> S(s1), j |-> F2(1)]) ] ]
+                  r5 |-> Row(Nil, N(1), N(0), F2(-2), B(FALSE), D(1), {sAspB}, "r1", {"r5"}, [k |-> N(1), j |-> N(1), q |-> D(0)]),
+                  r6 |-> Row(S(sAspB), N(0), N(0), F2(1), Nil, D(1), {sB}, "r6", {"r1", "r2"}, [k |-> S(s1), j |-> F2(1), q |-> D(3)]) ] ]
+
+\* D3: rows that agree on every scalar field (only the id tells them apart), for sorts whose every field ties
+Same(boss, peers) == Row(S(sA), N(1), N(1), F2(2), B(TRUE), D(1), {sA}, boss, peers, NoTags)
+Other(boss) == Row(S(sB), N(0), Nil, F2(2), B(TRUE), Nil, {}, boss, {}, NoTags)
+D3 == [ name |-> "D3",
+        names |-> [r1 |-> sB, r2 |-> sAB, r3 |-> sA, r4 |-> sUA, r5 |-> s1, r6 |-> <<18, 18>>, r7 |-> sBB],
+        row |-> [ r1 |-> Same("", {}), r2 |-> Other("r1"), r3 |-> Same("r1", {"r1"}), r4 |-> Same("r1", {}), r5 |-> Other("r1"),
+                  r6 |-> Same("", {"r2", "r3"}), r7 |-> Other("") ] ]
 
 \* D0: the empty store
 D0 == [name |-> "D0", names |-> << >>, row |-> << >>]
 
-Datasets == {D1, D2}
+Datasets == IF Mode = "page" THEN {D1, D2, D3} ELSE IF Mode \in {"datasets", "bool"} THEN {D1, D2, D3, D0} ELSE {D1, D2}
 
 \* ---- literal pools
 StrLits == {S(sA), S(sAB), S(sUA), S(sE), S(sB), S(s1), S(s10), S(s1p5), S(sBB), S(sQ), S(sBS), S(sAspB)}
@@ -83,11 +92,15 @@ AnyAtoms == {Cmp(op, l) : op \in Ops6, l \in {S(sA), S(s1), N(1), N(2), F2(3)}}
             \cup {Has(neg, ci, S(sA)) : neg \in BOOLEAN, ci \in BOOLEAN}
             \cup {IsNull(neg) : neg \in BOOLEAN}
 
-AtomsFor(sym) == CASE SymType(sym) = "s" -> StrAtoms [] SymType(sym) \in {"n", "f"} -> NumAtoms
+BDAtoms == {Cmp(op, l) : op \in {"eq", "ne"}, l \in BoolLits} \cup {Cmp(op, l) : op \in Ops6, l \in {D(1), D(2)}} \cup {IsNull(neg) : neg \in BOOLEAN}
+AnySLAtoms == {a \in AnyAtoms : ~(a.k = "cmp" /\ a.lit.t \in {"b", "d"})}
+AtomsFor(sym) == CASE sym[Len(sym)] = "q" -> BDAtoms
+                   [] SymType(sym) = "any" -> AnySLAtoms
+                   [] SymType(sym) = "s" -> StrAtoms [] SymType(sym) \in {"n", "f"} -> NumAtoms
                    [] SymType(sym) = "b" -> BoolAtoms [] SymType(sym) = "d" -> DateAtoms [] OTHER -> AnyAtoms
 
 ScalarSyms == {<<"id">>, <<"s">>, <<"n">>, <<"m">>, <<"f">>, <<"b">>, <<"t">>, <<"boss">>, <<"boss", "s">>, <<"boss", "n">>,
-               <<"boss", "boss", "s">>, <<"boss", "id">>, <<"tags", "k">>, <<"tags", "j">>, <<"tags", "zz">>, <<"boss", "tags", "k">>}
+               <<"boss", "boss", "s">>, <<"boss", "id">>, <<"tags", "k">>, <<"tags", "j">>, <<"tags", "zz">>, <<"boss", "tags", "k">>, <<"tags", "q">>, <<"tags", "zz", "y">>}
 SetSyms == {<<"roles">>, <<"peers">>, <<"boss", "roles">>, <<"peers", "s">>, <<"peers", "n">>, <<"peers", "roles">>,
             <<"peers", "boss">>, <<"peers", "boss", "s">>, <<"peers", "tags", "k">>, <<"peers", "peers">>, <<"boss", "peers">>}
 
@@ -132,7 +145,12 @@ Limits == {NoVal, NoneLimit, -1, 0, 1, 2, 5, 100}
 PagePreds == {TRUEF, A2, [k |-> "not", e |-> A2]}
 PageQ == {[p |-> p, sort |-> so, skip |-> sk, limit |-> li] : p \in PagePreds, so \in Sorts, sk \in Skips, li \in Limits}
 
-QueriesOf(m) == CASE m = "datasets" -> {Q(TRUEF)} [] m = "scalar" -> ScalarQ [] m = "set" -> SetQ [] m = "bool" -> BoolQ [] m = "subq" -> SubQ [] m = "page" -> PageQ
+\* minimal inputs of the named deviations (Query!Dev)
+ProbeQ == {Q([k |-> "atom", sym |-> <<"b">>, a |-> Cmp("eq", B(FALSE))]), Q([k |-> "atom", sym |-> <<"b">>, a |-> Cmp("ne", B(TRUE))])}
+
+SortSymQ == {[p |-> p, sort |-> so, skip |-> NoVal, limit |-> NoVal] : p \in PagePreds \cup {A1, A4}, so \in Sorts}
+
+QueriesOf(m) == CASE m = "datasets" -> {Q(TRUEF)} [] m = "probe" -> ProbeQ [] m = "sortsyms" -> SortSymQ [] m = "scalar" -> ScalarQ [] m = "set" -> SetQ [] m = "bool" -> BoolQ [] m = "subq" -> SubQ [] m = "page" -> PageQ
 
 \* one case per (dataset, query); sharded by a cheap hash so that several TLC processes split a slice
 VARIABLES ds, q, n
